@@ -296,7 +296,7 @@ fn nth_ast(i: u64, sets: &[Vec<(String, bool)>]) -> Option<OptAst> {
 
 // ---- random part: domain lists ----------------------------------------------------------------
 
-const DOMS: &[&str] = &["a.com", "b.a.com", "c.b.a.com", "x.org", "y.x.org", "co.uk", "site.co.uk", "w.site.co.uk", "com", "example.net", "bücher.de", "sub.bücher.de", "пример.рф"];
+const DOMS: &[&str] = &["www.a.com", "www.site.co.uk", "a.com", "b.a.com", "c.b.a.com", "x.org", "y.x.org", "co.uk", "site.co.uk", "w.site.co.uk", "com", "example.net", "bücher.de", "sub.bücher.de", "пример.рф"];
 
 fn decode_domains(t: &mut Tape) -> OptCase {
     let n = 1 + t.pick(4);
